@@ -148,8 +148,21 @@ pub fn run_prog(case: &Value) -> Value {
     if want_funcs {
         res["funcs"] = fj;
         // constants of simple kinds, for VM-level trace validation
-        let consts: Vec<Value> = bytecode.constants.iter().map(|c| proj(c, 0)).collect();
+        let consts: Vec<Value> = bytecode
+            .constants
+            .iter()
+            .map(|c| match c.as_ref() {
+                Object::Func(f) => {
+                    let p = Rc::as_ptr(&f.instructions) as usize;
+                    json!({"k":"fn","id":ids.get(&p).cloned().unwrap_or(0)})
+                }
+                other => proj(other, 0),
+            })
+            .collect();
         res["consts"] = json!(consts);
+        let bnames: Vec<&str> = crate::builtins::functions::BUILTINFNS.iter().map(|b| b.name).collect();
+        res["bnames"] = json!(bnames);
+        res["obsidx"] = json!(obs_idx.map(|i| i as i64).unwrap_or(-1));
     }
 
     // run
@@ -187,7 +200,7 @@ pub fn run_prog(case: &Value) -> Value {
             .iter()
             .map(|e| {
                 let fid = ids.get(&(e[1] as usize)).cloned().unwrap_or(0);
-                json!([e[0], fid, e[2], e[3], e[4]])
+                json!([e[0], fid, e[2], e[3], e[4], e[5], e[6]])
             })
             .collect();
         res["trace"] = json!(t);
